@@ -11,6 +11,25 @@ def processLine (line : String) : String :=
   match Json.parse line with
   | .error e => s!"BADLINE {e}"
   | .ok j =>
+    if str j "k" == "frontpub3" then
+      -- one MCP messages_publish call spanning three managed endpoints (three Admin calls behind it): accepted ⇒ every item
+      -- is queued on its endpoint's route; failed ⇒ no item of the call is left deliverable (queued or leased) and nothing
+      -- else changed
+      let tag := s!"case={nat j "case"} via={str j "via"} answer={(str j "raw").take 160}"
+      let before := sortMsgs ((arr j "before").map msgOfJson)
+      let after := sortMsgs ((arr j "after").map msgOfJson)
+      let items := arr j "items"
+      let fresh := items.filter (fun it => !before.any (fun b => b.id == str it "id"))
+      let othersSame := before.all (fun b => after.contains b)
+      if !othersSame then s!"PROP C15,C02 multi-endpoint-publish-changed-other-messages {tag}"
+      else if str (obj j "resp") "t" == "count" then
+        (if fresh.length == items.length && items.all (fun it => after.any (fun m => m.id == str it "id" && m.route == str it "route" && m.st == .queued && m.payload == str it "payload")) then "ok"
+         else s!"PROP C15 multi-endpoint-publish-accepted-but-items-missing-or-misplaced {tag}")
+      else
+        match fresh.find? (fun it => after.any (fun m => m.id == str it "id" && (m.st == .queued || m.st == .leased))) with
+        | some it => s!"PROP C15 failed-multi-endpoint-publish-left-an-item-deliverable item={str it "id"} {tag}"
+        | none => "ok"
+    else
     if str j "k" == "frontpub" then
       -- a publish entered through a front end: all items stored exactly as published (route of the selector, one target,
       -- queued, payload, headers, and the received / due times that were asked for), or nothing at all
